@@ -184,6 +184,11 @@ pub fn install_panic_hook() {
             }
         }
         LAST_PANIC.with(|p| *p.borrow_mut() = Some(format!("{loc}: {msg}{via}")));
+        // a panic on a pool thread is re-raised on the caller's thread by rayon without passing this hook again:
+        // keep a process-wide copy as a fallback (exact in worker processes, which run one case at a time)
+        if let Ok(mut g) = GLOBAL_LAST_PANIC.lock() {
+            *g = Some(format!("{loc}: {msg}{via}"));
+        }
         if !QUIET.with(|q| q.get()) {
             prev(info);
         }
@@ -202,15 +207,23 @@ fn normalise_loc(loc: &str) -> String {
     }
 }
 
+static GLOBAL_LAST_PANIC: Mutex<Option<String>> = Mutex::new(None);
+
 /// Run `f`, turning a panic into `Err("file:line: message")`.
 pub fn catch<T>(f: impl FnOnce() -> T) -> Result<T, String> {
     QUIET.with(|q| q.set(std::env::var("VERIF_DEBUG").is_err()));
     LAST_PANIC.with(|p| *p.borrow_mut() = None);
+    if let Ok(mut g) = GLOBAL_LAST_PANIC.lock() {
+        *g = None;
+    }
     let r = std::panic::catch_unwind(std::panic::AssertUnwindSafe(f));
     QUIET.with(|q| q.set(false));
     match r {
         Ok(v) => Ok(v),
-        Err(_) => Err(LAST_PANIC.with(|p| p.borrow_mut().take()).unwrap_or_else(|| "panic (no message)".into())),
+        Err(_) => Err(LAST_PANIC
+            .with(|p| p.borrow_mut().take())
+            .or_else(|| GLOBAL_LAST_PANIC.lock().ok().and_then(|mut g| g.take()))
+            .unwrap_or_else(|| "panic (no message)".into())),
     }
 }
 
